@@ -8,20 +8,31 @@ package main
 // observed through the top layer (Get of every key, Seek of ranges in both directions, any SearchDepth): before, during and
 // after the failed flush, and after the next successful one. Model: Store/PersistFail.v.
 //
-// input: {backend, nups, ops:[{t:"w",batch}|{t:"wtop",i,batch}|{t:"swap"}|{t:"lwrite"}|{t:"unswap"}|{t:"fail"}], q}
+// Seventh round: the same in SYNC mode (PersistSync: no parking, nothing interleaves), for a PRIVATE flushed layer (its
+// Persist has no error branch of its own: on an error it returns with its maps untouched), with layers BELOW the flushed
+// one (its lower store is then a gate around another MemCachedStore whose own PutChangeSet cannot fail), and with failures
+// that come from the REAL backends (BoltDB/LevelDB reopened read-only: the write transaction is refused), repeated
+// failures, failure then success.
+//
+// input: {backend, nups, nlow, priv, ops:[{t:"w",batch}|{t:"wtop",i,batch}|{t:"wlow",i,batch}|{t:"swap"}|{t:"lwrite"}|{t:"unswap"}|
+//         {t:"fail"}|{t:"realfail"}|{t:"sync"}|{t:"syncfail"}|{t:"syncrealfail"}|{t:"ro"}|{t:"rw"}], q}
 
 import (
 	"bytes"
 	"errors"
 	"fmt"
+	"path/filepath"
 	"time"
 
 	"github.com/nspcc-dev/neo-go/pkg/core/storage"
+	"github.com/nspcc-dev/neo-go/pkg/core/storage/dbconfig"
 )
 
 type c09FInput struct {
 	Backend string   `json:"backend"`
 	NUps    int      `json:"nups"`
+	NLow    int      `json:"nlow,omitempty"` // shared layers between the flushed layer and the base store
+	Priv    bool     `json:"priv,omitempty"` // the flushed layer is private (sync-style flushes only)
 	Ops     []c09SOp `json:"ops"`
 	Q       c09Query `json:"q"`
 }
@@ -29,28 +40,84 @@ type c09FInput struct {
 type c09FailSys struct {
 	base0   *c09Stack
 	g       *c09Gate
+	bfwd    *c09Fwd                   // the replaceable handle of a BoltDB backend (LevelDB has base0.fwd)
+	path    string                    // the backend's file / directory
+	backend string
+	ro      bool                      // the backend is currently opened read-only
+	lows    []*storage.MemCachedStore // shared layers below the flushed one, bottom first
+	priv    bool
+	closed  bool // private flushed layer after its successful Persist
 	layers  []*storage.MemCachedStore // layers[0] = L0 (flushed), then the layers above, top last
 	pstate  int                       // 0 idle, 1 swapped (parked before the write below), 2 written (parked before unswap)
 	done    chan error
 	coqActs []string
 }
 
-func c09NewFailSys(backend string, nups int, dir string, seq int) (*c09FailSys, error) {
-	base0, err := c09NewStack(backend, dir, seq)
+func c09NewFailSys(in c09FInput, dir string, seq int) (*c09FailSys, error) {
+	base0, err := c09NewStack(in.Backend, dir, seq)
 	if err != nil {
 		return nil, err
 	}
-	g := &c09Gate{Store: base0.base,
+	f := &c09FailSys{base0: base0, done: make(chan error, 1), backend: in.Backend, priv: in.Priv}
+	var lower storage.Store = base0.base
+	switch in.Backend {
+	case "bolt":
+		f.bfwd = &c09Fwd{Store: base0.base}
+		lower = f.bfwd
+		f.path = filepath.Join(dir, fmt.Sprintf("b%d.bolt", seq))
+	case "level":
+		f.path = base0.ldbPath
+	}
+	for i := 0; i < in.NLow; i++ {
+		l := storage.NewMemCachedStore(lower)
+		f.lows = append(f.lows, l)
+		lower = l
+	}
+	g := &c09Gate{Store: lower,
 		seekArrive: make(chan struct{}), seekGo: make(chan struct{}),
 		putArrive: make(chan struct{}), putGo: make(chan struct{}),
 		putWritten: make(chan struct{}), putGoExit: make(chan struct{})}
-	g.settle = base0.settle
-	f := &c09FailSys{base0: base0, g: g, done: make(chan error, 1)}
-	f.layers = []*storage.MemCachedStore{storage.NewMemCachedStore(g)}
-	for i := 0; i < nups; i++ {
+	if in.NLow == 0 {
+		g.settle = base0.settle
+	}
+	f.g = g
+	if in.Priv {
+		f.layers = []*storage.MemCachedStore{storage.NewPrivateMemCachedStore(g)}
+	} else {
+		f.layers = []*storage.MemCachedStore{storage.NewMemCachedStore(g)}
+	}
+	for i := 0; i < in.NUps; i++ {
 		f.layers = append(f.layers, storage.NewMemCachedStore(f.layers[i]))
 	}
 	return f, nil
+}
+
+// reopen closes the disk backend and opens the same file again, read-only or read-write
+func (f *c09FailSys) reopen(ro bool) error {
+	switch f.backend {
+	case "bolt":
+		if err := f.bfwd.Store.Close(); err != nil {
+			return err
+		}
+		b, err := storage.NewBoltDBStore(dbconfig.BoltDBOptions{FilePath: f.path, ReadOnly: ro})
+		if err != nil {
+			return err
+		}
+		f.bfwd.Store, f.base0.base = b, b
+	case "level":
+		if err := f.base0.ldb.Close(); err != nil {
+			return err
+		}
+		l, err := storage.NewLevelDBStore(dbconfig.LevelDBOptions{DataDirectoryPath: f.path, ReadOnly: ro})
+		if err != nil {
+			return err
+		}
+		f.base0.ldb, f.base0.fwd.Store = l, l
+	default:
+		return nil
+	}
+	f.ro = ro
+	return nil
 }
 
 func (f *c09FailSys) top() *storage.MemCachedStore { return f.layers[len(f.layers)-1] }
@@ -87,6 +154,9 @@ func (f *c09FailSys) apply(o c09SOp) error {
 	g := f.g
 	switch o.T {
 	case "w":
+		if f.closed {
+			return nil // a private layer is closed by its successful Persist
+		}
 		mem, stor, c := c09BatchMaps(o)
 		if err := f.layers[0].PutChangeSet(mem, stor); err != nil {
 			return err
@@ -103,6 +173,9 @@ func (f *c09FailSys) apply(o c09SOp) error {
 		}
 		f.coqActs = append(f.coqActs, fmt.Sprintf("FT %d %s", i, c))
 	case "swap":
+		if f.priv {
+			return nil // a private layer takes no lock: nothing may be written into it while its Persist is parked
+		}
 		f.coqActs = append(f.coqActs, "FS")
 		if f.pstate != 0 {
 			return nil
@@ -121,6 +194,9 @@ func (f *c09FailSys) apply(o c09SOp) error {
 			return c09Stuck("c09fail:swap")
 		}
 	case "lwrite":
+		if f.ro {
+			return nil
+		}
 		f.coqActs = append(f.coqActs, "FL")
 		if f.pstate != 1 {
 			return nil
@@ -163,6 +239,72 @@ func (f *c09FailSys) apply(o c09SOp) error {
 		}
 		g.putArmed = false
 		f.pstate = 0
+	case "wlow":
+		if f.pstate != 0 || o.I < 0 || o.I >= len(f.lows) {
+			return nil // only between two flushes; no such layer: no-op (and not part of the Coq term)
+		}
+		mem, stor, c := c09BatchMaps(o)
+		if err := f.lows[o.I].PutChangeSet(mem, stor); err != nil {
+			return err
+		}
+		f.coqActs = append(f.coqActs, "FD "+c)
+	case "realfail": // the parked flush is let through to a backend that refuses the write
+		if f.pstate != 1 || !f.ro {
+			return nil
+		}
+		f.coqActs = append(f.coqActs, "FX")
+		g.putGo <- struct{}{}
+		if err := c09Wait(g.putWritten, "c09fail:realfail"); err != nil {
+			return err
+		}
+		g.putGoExit <- struct{}{}
+		select {
+		case err := <-f.done:
+			if err == nil {
+				return errors.New("Persist over a read-only backend returned no error")
+			}
+		case <-time.After(c09StepTimeout):
+			return c09Stuck("c09fail:realfail-done")
+		}
+		g.putArmed = false
+		f.pstate = 0
+	case "sync", "syncfail", "syncrealfail": // PersistSync, or Persist of a private layer: one step, nothing interleaves
+		if f.pstate != 0 {
+			return nil
+		}
+		wantErr := o.T != "sync"
+		if o.T == "syncrealfail" && !f.ro {
+			return nil
+		}
+		if o.T == "sync" && f.ro {
+			return nil
+		}
+		g.failNext = o.T == "syncfail"
+		var err error
+		if f.priv {
+			_, err = f.layers[0].Persist()
+		} else {
+			_, err = f.layers[0].PersistSync()
+		}
+		g.failNext = false
+		if wantErr && err == nil {
+			// nothing to flush: Persist returns before calling the lower store; the model's step is a no-op as well
+			wantErr = false
+		}
+		if (err != nil) != wantErr {
+			return fmt.Errorf("%s returned %v", o.T, err)
+		}
+		if o.T == "sync" {
+			f.closed = f.priv
+			f.coqActs = append(f.coqActs, "FY")
+		} else {
+			f.coqActs = append(f.coqActs, "FZ")
+		}
+	case "ro", "rw":
+		if f.pstate != 0 || len(f.lows) != 0 || f.backend == "mem" {
+			return nil
+		}
+		return f.reopen(o.T == "ro")
 	default:
 		return fmt.Errorf("unknown failing-flush op %q", o.T)
 	}
@@ -171,6 +313,9 @@ func (f *c09FailSys) apply(o c09SOp) error {
 
 // finish lets a Persist that is still parked complete (after the last observation)
 func (f *c09FailSys) finish() {
+	if f.ro && f.pstate != 0 {
+		_ = f.reopen(false)
+	}
 	switch f.pstate {
 	case 1:
 		f.g.putGo <- struct{}{}
@@ -223,7 +368,7 @@ func (f *c09FailSys) observe(co *caseOut, in c09FInput, kind string, tag string)
 
 // replay of one case: the ops, then the one observation
 func c09RunFailCase(co *caseOut, in c09FInput, kind string, dir string, seq int) error {
-	f, err := c09NewFailSys(in.Backend, in.NUps, dir, seq)
+	f, err := c09NewFailSys(in, dir, seq)
 	if err != nil {
 		return err
 	}
@@ -241,15 +386,27 @@ func c09RunFailCase(co *caseOut, in c09FInput, kind string, dir string, seq int)
 
 var c09FailKeys = [][]byte{{0x70, 0x01}, {0x70, 0x01, 0x00}, {0x70, 0x02}, {0x70, 0xff}, {0x03, 0x01}, {0x03, 0x01, 0xff}, {0x71, 0x00}}
 
-// one generated run: flush an initial batch successfully, then a flush that fails with writes of every overlap pattern while
-// it is blocked, then the next flush succeeds; everything is observed after every action
+// one generated run. Shape: nups shared layers above the flushed layer (0..3), nlow shared layers below it (0..2), the
+// flushed layer shared or private. Plan: optional successful first flush (so that tombstones in flight hide lower keys),
+// then 1..3 flush attempts, each asynchronous (Persist parked, batches of every overlap pattern written meanwhile) or
+// synchronous (PersistSync / private Persist), each succeeding or failing — the failure injected by the gate or, on a
+// disk backend directly below, coming from the backend itself reopened read-only —, then a flush that succeeds.
+// Everything is observed after every action.
 func c09GenFailRun(co *caseOut, r *rng, backend string, dir string, seq int) error {
-	nups := 1 + r.intn(3)
-	f, err := c09NewFailSys(backend, nups, dir, seq)
+	in := c09FInput{Backend: backend, NUps: r.intn(4), Priv: r.chance(20)}
+	if r.chance(35) {
+		in.NLow = 1 + r.intn(2)
+	}
+	f, err := c09NewFailSys(in, dir, seq)
 	if err != nil {
 		return err
 	}
-	defer f.base0.close(dir, backend, seq)
+	defer func() {
+		if f.ro {
+			_ = f.reopen(false)
+		}
+		f.base0.close(dir, backend, seq)
+	}()
 	vseq := 0
 	batch := func(n, delPct int) [][2]*string {
 		var b [][2]*string
@@ -271,40 +428,77 @@ func c09GenFailRun(co *caseOut, r *rng, backend string, dir string, seq int) err
 		}
 		return b
 	}
+	realOK := in.NLow == 0 && backend != "mem"
 	var plan []c09SOp
-	if r.chance(70) { // something already in the base store, so that tombstones in flight hide lower keys
-		plan = append(plan, c09SOp{T: "w", Batch: batch(1+r.intn(4), 0)}, c09SOp{T: "swap"}, c09SOp{T: "lwrite"}, c09SOp{T: "unswap"})
-	}
-	if r.chance(50) {
-		plan = append(plan, c09SOp{T: "wtop", I: r.intn(nups), Batch: batch(1+r.intn(2), 30)})
-	}
-	plan = append(plan, c09SOp{T: "w", Batch: batch(1+r.intn(5), 35)}) // the batch whose flush will fail: values and tombstones
-	plan = append(plan, c09SOp{T: "swap"})
-	for i := r.intn(4); i > 0; i-- { // written while the flush is blocked: smaller or bigger than the batch, overlapping it both ways
-		if r.chance(75) {
-			plan = append(plan, c09SOp{T: "w", Batch: batch(1+r.intn(6), 40)})
-		} else {
-			plan = append(plan, c09SOp{T: "wtop", I: r.intn(nups), Batch: batch(1+r.intn(2), 30)})
+	other := func() { // a write somewhere else in the stack
+		switch {
+		case in.NUps > 0 && r.chance(60):
+			plan = append(plan, c09SOp{T: "wtop", I: r.intn(in.NUps), Batch: batch(1+r.intn(2), 30)})
+		case in.NLow > 0:
+			plan = append(plan, c09SOp{T: "wlow", I: r.intn(in.NLow), Batch: batch(1+r.intn(3), 30)})
 		}
 	}
-	if r.chance(85) {
-		plan = append(plan, c09SOp{T: "fail"})
-	} else {
-		plan = append(plan, c09SOp{T: "lwrite"}, c09SOp{T: "unswap"})
+	if r.chance(60) && !in.Priv { // something already below
+		plan = append(plan, c09SOp{T: "w", Batch: batch(1+r.intn(4), 0)}, c09SOp{T: "sync"})
 	}
-	if r.chance(60) {
+	if r.chance(50) {
+		other()
+	}
+	attempts := 1 + r.intn(3)
+	for a := 0; a < attempts; a++ {
+		plan = append(plan, c09SOp{T: "w", Batch: batch(1+r.intn(5), 35)}) // the batch to flush: values and tombstones, mem and stor keys
+		fails := r.chance(75)
+		real := fails && realOK && r.chance(40)
+		if real {
+			plan = append(plan, c09SOp{T: "ro"})
+		}
+		if in.Priv || r.chance(50) { // synchronous
+			switch {
+			case real:
+				plan = append(plan, c09SOp{T: "syncrealfail"})
+			case fails:
+				plan = append(plan, c09SOp{T: "syncfail"})
+			default:
+				plan = append(plan, c09SOp{T: "sync"})
+			}
+		} else {
+			plan = append(plan, c09SOp{T: "swap"})
+			for i := r.intn(4); i > 0; i-- { // written while the flush is blocked: smaller or bigger than the batch, overlapping both ways
+				if r.chance(75) || in.NUps == 0 {
+					plan = append(plan, c09SOp{T: "w", Batch: batch(1+r.intn(6), 40)})
+				} else {
+					plan = append(plan, c09SOp{T: "wtop", I: r.intn(in.NUps), Batch: batch(1+r.intn(2), 30)})
+				}
+			}
+			switch {
+			case real:
+				plan = append(plan, c09SOp{T: "realfail"})
+			case fails:
+				plan = append(plan, c09SOp{T: "fail"})
+			default:
+				plan = append(plan, c09SOp{T: "lwrite"}, c09SOp{T: "unswap"})
+			}
+		}
+		if real {
+			plan = append(plan, c09SOp{T: "rw"})
+		}
+		if in.Priv && !fails {
+			break // the private layer is closed now
+		}
+		if r.chance(40) {
+			other()
+		}
+	}
+	if r.chance(50) {
 		plan = append(plan, c09SOp{T: "w", Batch: batch(1+r.intn(3), 30)})
 	}
-	plan = append(plan, c09SOp{T: "swap"}, c09SOp{T: "lwrite"}, c09SOp{T: "unswap"}) // the next flush succeeds
-	if r.chance(30) {
-		plan = append(plan, c09SOp{T: "w", Batch: batch(2, 30)}, c09SOp{T: "swap"}, c09SOp{T: "fail"}) // and another one fails
-	}
+	plan = append(plan, c09SOp{T: "sync"}) // and a flush that succeeds
 	for i, o := range plan {
 		if err := f.apply(o); err != nil {
 			f.finish()
 			return err
 		}
-		if o.T == "wtop" && i+1 < len(plan) && r.chance(50) {
+		if (o.T == "wtop" || o.T == "wlow" || o.T == "rw") && i+1 < len(plan) && r.chance(50) {
 			continue
 		}
 		pre := append([]c09SOp{}, plan[:i+1]...)
@@ -312,18 +506,28 @@ func c09GenFailRun(co *caseOut, r *rng, backend string, dir string, seq int) err
 		if f.pstate != 0 {
 			tag += "-inflight"
 		}
+		if in.Priv {
+			tag += "-priv"
+		}
+		if in.NLow > 0 {
+			tag += "-overlayer"
+		}
+		obs := in
+		obs.Ops = pre
 		for g := 0; g < 2; g++ {
-			f.observe(co, c09FInput{Backend: backend, NUps: nups, Ops: pre, Q: c09Query{Key: hx(pick(r, c09FailKeys))}}, "failget", tag)
+			obs.Q = c09Query{Key: hx(pick(r, c09FailKeys))}
+			f.observe(co, obs, "failget", tag)
 		}
 		for g := 0; g < 2; g++ {
 			q := c09Query{Prefix: hx(pick(r, [][]byte{{0x70}, {0x70, 0x01}, {0x03}, {0x71}})), Bw: r.chance(50)}
 			if r.chance(25) {
 				q.Start = pick(r, []string{"01", "02", "00"})
 			}
-			if r.chance(25) {
-				q.Depth = 1 + r.intn(nups+3)
+			if r.chance(25) && in.NLow == 0 { // (with layers below, the model sees them through their content: full depth only)
+				q.Depth = 1 + r.intn(in.NUps+3)
 			}
-			f.observe(co, c09FInput{Backend: backend, NUps: nups, Ops: pre, Q: q}, "failseek", tag)
+			obs.Q = q
+			f.observe(co, obs, "failseek", tag)
 		}
 	}
 	f.finish()
